@@ -301,6 +301,14 @@ func Judge(cs Case, res Result) []Failure {
 				}
 			}
 			negInList++
+			// after a voluntary, non-restarting feature the selection loop goes on with the same
+			// list: the next thing must be another Negotiate or the end of negotiation, never a
+			// read (a feature that the list marked voluntary must not end the list)
+			if ent, ok := cache[b.NS]; ok && ent.idx == e.F && !ent.req && !server && !forced && !b.NegErr && !b.Restart {
+				if i+1 < len(res.Events) && res.Events[i+1].Kind == "R" {
+					add("C01", "voluntary-first", "list-left-after-voluntary", "%s was advertised as voluntary and does not restart the stream, yet the features list was abandoned after it (next event is a read)", e.String(cfg))
+				}
+			}
 			if !b.NegErr {
 				negd[b.NS] = true
 				if b.Mask&Ready != 0 {
